@@ -209,10 +209,13 @@ fn as_index_range(pos_range: &PosRange, text: &str) -> TextRange {
 pub fn get_insertion_index(position: &Position, text: &str) -> usize {
     let mut line = 0;
     let mut character = 0;
-    let pos = (position.line, position.character);
     for (i, c) in text.char_indices() {
-        if (line, character) == pos {
-            return i;
+        if line == position.line {
+            // a character beyond the end of the line means the end of the line
+            let at_line_end = c == '\n' || text[i..].starts_with("\r\n");
+            if character >= position.character || at_line_end {
+                return i;
+            }
         }
         if c == '\n' {
             line += 1;
